@@ -23,4 +23,6 @@ def obligations(tier):
                 obls.append(api_step(op, it, ot, kind, 2))
     obls += kern_set(tier)        # L3: every access of the real kernels inside the FIFO allocations / coefficient table, library asserts on
     obls += [plan_obl(0), plan_obl(1), plan_obl(1, 0), plan_obl(2)]      # planner pieces of cr.c (set_dft_length / dft_stage_init / validation prefix)
+    obls.append(init_qq_obl())      # real _soxr_init for the quick recipe: cubic stage inside its envelope
+    obls.append(plan_obl(3))      # the halving loop of _soxr_init terminates for every finite ratio
     return obls
